@@ -122,6 +122,11 @@ func checkC03(ctx *Ctx, r *Report) {
 	}
 	st.checkMapOrderedCallers()
 	st.otherSources()
+	// the languages of one run are processed in map order: their outputs are independent only if each chain works on its own copy
+	checkProcessCopiesFirst(ctx, r, "copycheck/use")
+	c18IRCopies(ctx, r)
+	c03ReferenceParsersVerbatim(ctx, r)
+	c07SortedValueUsed(ctx, r)
 }
 
 func (st *c03State) siteName(s mapSite) string {
@@ -247,6 +252,31 @@ func (st *c03State) classify(s mapSite) {
 		return o.Pos() < body.Pos() || o.Pos() > body.End()
 	}
 	facts := st.eng.RegionFacts(s.pkg, body, isOuter)
+	// self-feeding loop: the body stores into the very map it ranges over a value computed by a function that reads that
+	// map — each iteration sees the entries already rewritten by the previous ones, in map order
+	if mf := fieldOf(info, s.rs.X); mf != nil {
+		ast.Inspect(body, func(n ast.Node) bool {
+			as, ok := n.(*ast.AssignStmt)
+			if !ok || len(as.Lhs) != len(as.Rhs) {
+				return true
+			}
+			for i, l := range as.Lhs {
+				ix, ok := ast.Unparen(l).(*ast.IndexExpr)
+				if !ok || fieldOf(info, ix.X) != mf {
+					continue
+				}
+				ast.Inspect(as.Rhs[i], func(q ast.Node) bool {
+					if c, ok := q.(*ast.CallExpr); ok {
+						if fn := callee(info, c); fn != nil && st.readsField(fn, mf, 0, map[*types.Func]bool{}) {
+							addS(as.Pos(), "stores into %s, the map being ranged over, a value computed by %s, which reads that map: every iteration depends on the entries rewritten before it, in map iteration order", exprString(ix.X), st.ctx.FuncName(fn))
+						}
+					}
+					return true
+				})
+			}
+			return true
+		})
+	}
 	inLit := enclosingFuncLit(parents, s.rs) != nil
 	exemptReason, exempt := c03EmissionExemptions[name]
 
@@ -986,4 +1016,80 @@ func (st *c03State) otherSources() {
 	}
 	st.r.Count("qualified identifiers scanned for nondeterminism sources", n)
 	st.r.OK("maporder/other-source", "pipeline packages", token.NoPos, "scan complete")
+}
+
+// readsField: does fn (a cog function), or a cog function it calls, mention the struct field f?
+func (st *c03State) readsField(fn *types.Func, f *types.Var, depth int, seen map[*types.Func]bool) bool {
+	if depth > 3 || seen[fn] {
+		return false
+	}
+	seen[fn] = true
+	fd, p := st.ctx.DeclOf(fn)
+	if fd == nil || fd.Body == nil {
+		return false
+	}
+	found := false
+	ast.Inspect(fd.Body, func(n ast.Node) bool {
+		if found {
+			return false
+		}
+		switch x := n.(type) {
+		case *ast.SelectorExpr:
+			if fieldOf(p.TypesInfo, x) == f {
+				found = true
+			}
+		case *ast.CallExpr:
+			if c := callee(p.TypesInfo, x); c != nil && st.readsField(c, f, depth+1, seen) {
+				found = true
+			}
+		}
+		return true
+	})
+	return found
+}
+
+// c03ReferenceParsersVerbatim: the loaders re-key maps read from YAML (`fields_set_default: {pkg.Obj.field: value}`) by the
+// parsed reference while ranging over them: that is independent of the iteration order only as long as two different
+// spellings give two different keys, i.e. as long as the parsers keep the parts of the string as they are. A parser that
+// normalises a part (lower-casing, trimming) makes spellings collide, and which value survives the collision depends on
+// the map iteration order.
+func c03ReferenceParsersVerbatim(ctx *Ctx, r *Report) {
+	p := ctx.Pkg("internal/ast/compiler")
+	if p == nil {
+		r.Undecided("anchor lost: internal/ast/compiler")
+		return
+	}
+	info := p.TypesInfo
+	n := 0
+	for _, file := range p.Syntax {
+		for _, d := range file.Decls {
+			fd, ok := d.(*ast.FuncDecl)
+			if !ok || fd.Body == nil || fd.Recv != nil || !strings.HasSuffix(fd.Name.Name, "ReferenceFromString") {
+				continue
+			}
+			ast.Inspect(fd.Body, func(m ast.Node) bool {
+				rs, ok := m.(*ast.ReturnStmt)
+				if !ok || len(rs.Results) != 2 || !isNilIdent(info, rs.Results[1]) {
+					return true
+				}
+				cl, ok := ast.Unparen(rs.Results[0]).(*ast.CompositeLit)
+				if !ok {
+					return true
+				}
+				for _, el := range cl.Elts {
+					kv, ok := el.(*ast.KeyValueExpr)
+					if !ok {
+						continue
+					}
+					n++
+					_, verbatim := ast.Unparen(kv.Value).(*ast.IndexExpr)
+					r.Check(verbatim, "maporder/reference-verbatim", fmt.Sprintf("compiler.%s field %s", fd.Name.Name, exprString(kv.Key)), kv.Pos(), "a part of the split string, as it is",
+						fmt.Sprintf("compiler.%s stores %s in %s: two spellings of one reference now parse to the same key; the loaders re-key YAML maps by it while ranging over them, so which entry survives depends on the map iteration order — the IR differs from run to run", fd.Name.Name, exprString(kv.Value), exprString(kv.Key)))
+				}
+				return true
+			})
+		}
+	}
+	r.Count("fields of parsed references", n)
+	r.Floor("fields of parsed references", 5)
 }
